@@ -13,6 +13,10 @@ void heart_beat() {
 }
 void init() { hook("init"); }
 int id(string s) { hook("id"); return 0; }
+// applies made by parse_command()
+string *parse_command_id_list() { hook("pid"); return ({ "ball", me() }); }
+string *parse_command_plural_id_list() { return ({ "balls" }); }
+string *parse_command_adjectiv_id_list() { return ({ "red" }); }
 void catch_tell(string s) { hook("catch_tell"); }
 void reset() { rec("RESET " + me()); hook("reset"); }
 int clean_up(int inh) { rec("CLEANUP " + me()); hook("clean_up"); return 1; }
